@@ -1,8 +1,19 @@
-(** Property C07 -- erase / insert / delete (PARTIAL: buffer level; see DESIGN.md).
+(** Property C07 -- erase, insert and delete touch exactly their extent.
     Only pinned statements, closed by [exact], with their assumptions printed. *)
-From Avt Require Import Spec.Screen Proofs.Inv Proofs.BufRow.
+From Avt Require Import Oracles.Step Proofs.Inv Proofs.VisEq Proofs.BufRow Proofs.SpecEdit.
 
-(** Buffer::erase in each of its seven modes touches exactly the documented extent (closed formula [erase_view]); scrollback, geometry and every other row are unchanged *)
+(** ED (4 selectors), EL (3), ECH, ICH, DCH, DECALN: from every state satisfying the invariant the control function yields exactly the specified screen (closed formula per cell), cursor and modes; everything outside the extent is unchanged. *)
+Theorem C07_edit : forall t f e, TInv t -> spec_edit t f = Some e -> exists t', execute t f = Ok t' /\ vis_norm e = vis_norm t'.
+Proof. exact C07_edit. Qed.
+Check C07_edit : forall t f e, TInv t -> spec_edit t f = Some e -> exists t', execute t f = Ok t' /\ vis_norm e = vis_norm t'.
+Print Assumptions C07_edit.
+
+(** the executable statement evaluated on the implementation is a theorem of the model *)
+Theorem C07_statement : forall p p' t f t', TInv t -> execute t f = Ok t' -> holds_C07 (mkVt p t) f (mkVt p' t') = true.
+Proof. exact C07_edit_holds. Qed.
+Check C07_statement : forall p p' t f t', TInv t -> execute t f = Ok t' -> holds_C07 (mkVt p t) f (mkVt p' t') = true.
+Print Assumptions C07_statement.
+
 Theorem C07_erase : forall b col row m p, BGeom b -> row < brows b -> col <= bcols b -> buf_erase b col row m p = Ok (bset b (erase_view b col row m p)) /\ BGeom (bset b (erase_view b col row m p)).
 Proof. exact buf_erase_spec. Qed.
 Check C07_erase : forall b col row m p, BGeom b -> row < brows b -> col <= bcols b -> buf_erase b col row m p = Ok (bset b (erase_view b col row m p)) /\ BGeom (bset b (erase_view b col row m p)).
